@@ -147,6 +147,8 @@ def run(check: Check):
       txt(a) for a in st.value.args] == ['self._data_size', 'self._batch_size', 'hparams.num_batch_size_buckets'] for st in init.node.body)
   check.ob('R-BUCKET', init, '_pick_final_batch_size(data_size, batch_size, num_batch_size_buckets)', okf,
            'the padded size of the final batch is derived from this view\'s own size, batch size and bucket count')
+  _dataset(check)
+  _view_fields(check)
   _pick(check)
   _pad_examples(check)
   _attach_mask(check)
@@ -174,6 +176,63 @@ def run(check: Check):
           copy = bool(first) and all(isinstance(d.value, ast.Call) and cff.ext(d.value.func) == 'builtins.dict' and cff.param_of(
               d.value.args[0]) == call.positional_params[1] for d in first)
   check.ob('R-PURE.copy', call, 'out = dict(examples)', copy, 'preprocessing functions receive a copy of the mapping, not the caller\'s dict')
+
+
+def _dataset(check: Check):
+  """A dataset's size is the row count of the examples it holds now; a slice is a new dataset built from the sliced examples."""
+  repo = check.repo
+  ci = repo.cls(MOD, 'ClientDataset')
+  ln, gi = ci.method('__len__'), ci.method('__getitem__')
+  lff, gff = FuncFlow.of(repo, ln), FuncFlow.of(repo, gi)
+  check.analysed(ln)
+  check.analysed(gi)
+  ok_len = False
+  for _, rv in lff.returns():
+    ok_len = any(isinstance(x, ast.Attribute) and x.attr == 'raw_examples' and txt(x.value) == 'self' for x in lff.deep_walk(rv))
+  check.ob('R-SIB.size', ln, 'len(dataset) from self.raw_examples', ok_len,
+           'the size is computed from the examples held now, not from a value cached at construction (a sliced / rebuilt dataset would keep '
+           'the old size and every view would iterate past its rows)')
+  ok_gi = False
+  for _, rv in gff.returns():
+    for v in gff.expand(rv):
+      if isinstance(v, ast.Call):
+        r = gff.callee(v)
+        if r.kind == 'class' and r.cls is ci and len(v.args) >= 1:
+          a0 = [w for w in gff.expand(v.args[0])]
+          sl = any(isinstance(w, ast.Call) and wmean.repo_fn(gff, w) == f'{MOD}:slice_examples' and len(w.args) == 2 and txt(w.args[0]) == 'self.raw_examples'
+                   and gff.param_of(w.args[1]) == gi.positional_params[1] for w in a0)
+          pre = len(v.args) >= 2 and txt(v.args[1]) == 'self.preprocessor' or any(k.arg == 'preprocessor' and txt(k.value) == 'self.preprocessor' for k in v.keywords)
+          ok_gi = sl and pre
+  check.ob('R-SIB.size', gi, 'ClientDataset(slice_examples(self.raw_examples, index), self.preprocessor)', ok_gi,
+           'a slice is a fresh dataset constructed from the sliced examples and the same preprocessor (not a shallow copy that keeps '
+           'derived fields of the parent)')
+
+
+def _view_fields(check: Check):
+  """Views keep the hyper-parameters they were given: a field initialised from hparams.<f> is stored once, unmodified."""
+  repo = check.repo
+  n = 0
+  for cname in ('BatchView', 'PaddedBatchView'):
+    init = repo.cls(MOD, cname).method('__init__')
+    ff = FuncFlow.of(repo, init)
+    check.analysed(init)
+    hp = init.positional_params[2] if len(init.positional_params) > 2 else 'hparams'
+    stores = {}
+    for nd in ff.cfg.nodes:
+      if nd.kind == 'stmt' and isinstance(nd.ast, (ast.Assign, ast.AugAssign)):
+        tgts = nd.ast.targets if isinstance(nd.ast, ast.Assign) else [nd.ast.target]
+        for t in tgts:
+          if isinstance(t, ast.Attribute) and txt(t.value) == 'self':
+            stores.setdefault(t.attr, []).append(nd.ast)
+    for attr, sts in stores.items():
+      direct = [s for s in sts if isinstance(s, ast.Assign) and isinstance(s.value, ast.Attribute) and ff.param_of(s.value.value) == hp]
+      if not direct:
+        continue
+      n += 1
+      check.ob('R-SIB.fields', init, f'self.{attr} = {hp}.{direct[0].value.attr}', len(sts) == 1,
+               f'`self.{attr}` holds the configured `{direct[0].value.attr}`; it is assigned {len(sts)} time(s) - a later adjustment (e.g. clamping '
+               'to the client size) changes the batch shapes the caller asked for', node=sts[-1])
+  check.floor('R-SIB.fields', 'hyper-parameter fields of the views', n, 2)
 
 
 def _pick(check: Check):
